@@ -11,7 +11,7 @@ from vf.exprgen import grammar as GR
 from vf.progmodel.run import scratch_dir
 
 _counter = itertools.count()
-FUNC_PARAMS = "x, n, s, xs, ys, ss, d, t, o, m, id=None, G=5, Y=7"
+FUNC_PARAMS = "x, n, s, xs, ys, ss, d, t, o, m, id=None, G=5, zs=(), Y=7, fn=ident, kl=Node, md=icontract"
 
 HEADER = """import icontract
 from vf.exprlib import ident, add, kw, first, p, Node, Mat
@@ -172,13 +172,18 @@ class Module:
         self.close()
 
 
-def call(mod, role, is_async, inputs):
-    """Invoke the decorated callable; returns the exception raised (or None)."""
+def call(mod, role, is_async, inputs, order=None, npos=0):
+    """Invoke the decorated callable; returns the exception raised (or None).
+
+    ``order``: keyword order of the arguments; ``npos``: how many leading parameters are passed positionally."""
     from vf.progmodel.run import drive
 
-    args = {k: inputs[k] for k in list(GR.ARGS) + ["Y"]}
+    names = list(GR.ARGS) + ["Y"]
+    pos = [inputs[k] for k in names[:npos]]
+    rest = [k for k in (order or names) if k not in names[:npos]]
+    args = {k: inputs[k] for k in rest}
     try:
-        r = mod.mod.F(**args)
+        r = mod.mod.F(*pos, **args)
         if is_async:
             drive(r)
         return None
